@@ -31,6 +31,17 @@ def handle (fields : List String) : Option String :=
       | .panic _ => some "panic"
       | .outOfFuel => some "outOfFuel"
     | none => some "bad-op"
+  | ["gosemtable", "appendcap", n, k] =>
+    match parseInt n, parseInt k with
+    | some n, some k =>
+      match Slices.makeCap n with
+      | .ok c =>
+        let c := (List.range k.toNat).foldl (fun c (i : Nat) => Slices.appendCap c ((i : Int) + 1)) c
+        match Slices.capE c with
+        | .ok v => some (toString v)
+        | _ => some "unknown"
+      | _ => some "panic"
+    | _, _ => some "bad-op"
   | ["gosemtable", "csvline", recs] =>
     match parseRecs recs with
     | some [rec] =>
